@@ -18,8 +18,8 @@ def run(tier):
                              "into a shared object (" + ("-O0 and -O2" if thorough else "-O1") + ", -fwrapv -fno-strict-aliasing), and the program is run on its whole input grid by MIR_interp and by the compiled translation: result + buffer bytes + external-call log compared; "
                              "evaluations = (program,input,optimization level) comparisons; non-trivial = program with at least one compared input",
                         programs=res["done"], total_programs=res["ncases"], distinct_observed_behaviours=len(res["outcomes"]),
-                        programs_per_family={k[9:]: v for k, v in st.items() if k.startswith("programs:")}, unspecified_skipped=st.get("unspecified_skipped", 0),
+                        programs_per_family={k[9:]: v for k, v in st.items() if k.startswith("programs:")}, unspecified_skipped=st.get("unspecified_skipped", 0), misaligned_pairs_not_compared_at_O2=st.get("misaligned_not_compared_at_O2", 0),
                         programs_undefined_on_every_input=st.get("programs_undefined_on_every_input", 0), samples=res["samples"], exhaustive=res["exhaustive"])
     rep.assumptions = ["gcc with -fwrapv -fno-strict-aliasing is the C compiler for the translation (the emitted C relies on wrapping signed arithmetic and on type-punned memory accesses)",
-                       "(program,input) pairs on which refinterp meets behaviour MIR.md leaves unspecified are skipped", "modules with multiple-result functions and expr data are outside the property"]
+                       "(program,input) pairs on which refinterp meets behaviour MIR.md leaves unspecified are skipped", "a (program,input) pair that performs a memory access at an address which is not a multiple of the natural alignment of the operand type is compared at -O0/-O1 only: the translation *(T *) addr is undefined C there and gcc -O2 assumes natural alignment in store forwarding and loop dependence analysis", "modules with multiple-result functions and expr data are outside the property"]
     return rep.finish()
